@@ -73,6 +73,7 @@ type runOpts struct {
 	jobs     int
 	noCovers bool
 	only     *regexp.Regexp
+	scan     *scanOpts
 }
 
 func cmdRun(args []string) {
@@ -166,6 +167,27 @@ func runVerify(o *runOpts) (*RunOutput, error) {
 		c = x.contractFor(f)
 		x.Verify(f, c)
 		out.Paths[k] = x.pathCount
+	}
+	var scanRes []*ObResult
+	if o.scan != nil {
+		var fs []*ssa.Function
+		for _, k := range out.Functions {
+			fs = append(fs, ld.funcs[k])
+		}
+		// helpers that are inlined (no own verification run) are part of the cone too
+		for _, k := range keys {
+			c := cs.Funcs[k]
+			if c != nil && c.Inline {
+				for _, r := range o.funcs {
+					if r.MatchString(k) {
+						fs = append(fs, ld.funcs[k])
+						break
+					}
+				}
+			}
+		}
+		scanRes = x.scanNondeterminism(fs, *o.scan)
+		scanRes = append(scanRes, x.scanMapRanges(fs)...)
 	}
 	for _, cm := range ld.constMaps {
 		out.ConstTables[cm.g.Pkg.Pkg.Name()+"."+cm.g.Name()] = cm.src
@@ -313,6 +335,7 @@ func runVerify(o *runOpts) (*RunOutput, error) {
 	close(ch)
 	wg.Wait()
 	coverWG.Wait()
+	out.Results = append(out.Results, scanRes...)
 	out.WallS = time.Since(start).Seconds()
 	return out, nil
 }
